@@ -39,3 +39,15 @@ Theorem C17_P_model : forall k, valid_w k = true ->
   P_C17 k (VList (map (fun pe => let r := rel_response (wc_delim k) (fst pe) (snd pe) in VList [r; r]) (combine (wc_paths k) (wc_expands k)))) = true.
 Proof. exact P_C17_model. Qed.
 Print Assumptions C17_P_model.
+
+(* The route contract as a router guarantees it -- SOME decomposition prefix ++ delimiter ++ identifier with a non-empty
+   slash-free prefix and a non-empty identifier exists -- is the first-split test of the handler model, for every
+   delimiter; so a request the routers accept is never answered 404 by the handler *)
+Theorem C17_route_first_split : forall d rest, d <> [] -> prefixb d rest = false ->
+  (route_matches d rest <-> first_split_ok d rest).
+Proof. exact route_first_split. Qed.
+Print Assumptions C17_route_first_split.
+Theorem C17_routed_not_404 : forall d rs c rest, mk_conv true d rs = Val c -> d <> [] -> prefixb d rest = false ->
+  route_matches d rest -> resolve c rest <> NotFound404.
+Proof. exact routed_not_404. Qed.
+Print Assumptions C17_routed_not_404.
